@@ -58,7 +58,8 @@ EMPTY_STYLES = ["full", "bare", "iv-only"]
 P_POOL = [-44, -4, -3904, -3900, -3896, -3888, -1]
 ID_POOL = [bytes(range(0x30, 0x40)), None]
 
-BOUNDS = {"quick": {"dev": 1, "cfgs": "12 x EncryptMetadata", "pairs": "quick"}, "thorough": {"dev": 2, "cfgs": "17 x EncryptMetadata", "pairs": "all"}}
+BOUNDS = {"quick": {"dev": 1, "cfgs": "12 x EncryptMetadata", "pairs": "quick", "two-document histories": "6x6 cipher pairs x 66 histories (depth 4 over open/wrong-password/read events)"},
+          "thorough": {"dev": 2, "cfgs": "17 x EncryptMetadata", "pairs": "all", "two-document histories": "8x8 cipher pairs x 560 histories (depth 5; depth 4 with extract_text events)"}}
 
 META = {
     "rule": (
@@ -67,13 +68,21 @@ META = {
         "layout(2: table / xref stream + object stream) x Encrypt direct/indirect x string spelling literal/hex x plaintext variant(2). "
         "A case = one (document, password) opening compared with the model (distinct by construction); non-trivial = the opening "
         "succeeded and at least one non-empty encrypted string or stream was compared, or a wrong password was judged. "
-        "states/transitions = choice-tree nodes/edges; traces = documents (complete choice vectors) all of whose openings were compared."
+        "The last in-shard dimension is xref damage (startxref not a number; thorough also 0 / past EOF; classic layout only): the table is rebuilt by scanning and "
+        "the content must read back unchanged. 'pair' shards (Shape A): two documents A (classic layout) and B (xref stream, other passwords/ID/P) for every "
+        "ordered pair of cipher kinds; every history up to the depth bound over {open A/B, wrong-password attempt on A/B, read next third of A/B lazily, "
+        "extract_text A/B} whose last event observes one document after something happened to the other, each executed on fresh objects; oracle = what the "
+        "document yields when it is the only one open (baselines run first). "
+        "states/transitions = choice-tree nodes/edges (pair shards: history prefixes/events executed); traces = documents (complete choice vectors) all of "
+        "whose openings were compared, plus histories."
     ),
     "bound": {k: str(v) for k, v in BOUNDS.items()},
     "assumptions": [
         "reference encryptor (mc/refs/security.py) validated by decrypting 8 third-party sample files and against cryptography's ARC4; AES/SHA/MD5 primitives of cryptography/hashlib trusted",
         "SASLprep expectations are the RFC 4013 example table plus identity on NFKC-stable Latin/Greek letters; other Unicode passwords not explored",
         "R<=4 passwords: PDFDocEncoding-representable strings only as real passwords; unrepresentable ones only as wrong passwords",
+        "xref damage is limited to a startxref that cannot be used (the body is intact); a lost startxref KEYWORD makes PDFXRefFallback.load_trailer take the wrong object ('No /Root object') -- a C02/C13 matter, not generated here",
+        "two-document histories: two documents, one process, sequential interleaving (no threads); reads are in thirds of the object list",
         "not generated: P with reserved-one bits clear, StmF != StrF, per-stream /Crypt filters, public-key handlers, V=3",
         "zero-length strings/streams under AES are written three ways (IV + padding block; nothing; IV only) and must all read back empty",
         "one plaintext document shape (2 byte-content variants); strings of 0,1,15,16,17,32 and 300 bytes, streams of 0,1,16,31 and 600 bytes (raw and Flate) plus one page content stream",
@@ -106,6 +115,9 @@ def shards(tier):
                     if not (oi == (ui + 1) % len(pool) or ui == 1 or ui == oi):
                         continue
                 out.append(("grid", c, u, o))
+    for ca in PAIR_CFGS[tier]:
+        for cb in PAIR_CFGS[tier]:
+            out.append(("pair", ca, cb))
     return out
 
 
@@ -127,7 +139,8 @@ TEXT = "Hello C10 (plain) text"
 def plain_doc(variant: int, ident: Optional[bytes]) -> S.Plain:
     g = 0
     o: Dict[int, Tuple[int, Any]] = {}
-    content = b"BT /F1 12 Tf 72 700 Td (Hello C10 \\(plain\\) text) Tj ET\n"
+    # no EOL after the last operator: a byte too many at the end of the decrypted stream destroys 'ET'
+    content = b"BT /F1 12 Tf 72 700 Td (Hello C10 \\(plain\\) text) Tj ET"
     o[1] = (0, {"Type": N("Catalog"), "Pages": Ref(2), "Metadata": Ref(9), "Lang": b"en-US", "URI": {"Base": _s(17, variant, 1)}})
     o[2] = (0, {"Type": N("Pages"), "Kids": [Ref(3)], "Count": 1})
     o[3] = (0, {"Type": N("Page"), "Parent": Ref(2), "MediaBox": [0, 0, 612, 792], "Resources": {"Font": {"F1": Ref(5)}}, "Contents": Ref(4)})
@@ -247,8 +260,8 @@ def diff(exp: Any, obs: Any, path: Tuple = ()):
 
 # ----------------------------------------------------------------- one case
 class Params:
-    FIELDS = ("cfg", "em", "user", "owner", "P", "p_unsigned", "ident", "layout", "enc_indirect", "hexstr", "variant", "empty_style")
-    DEFAULTS = {"empty_style": "full"}
+    FIELDS = ("cfg", "em", "user", "owner", "P", "p_unsigned", "ident", "layout", "enc_indirect", "hexstr", "variant", "empty_style", "xref_damage")
+    DEFAULTS = {"empty_style": "full", "xref_damage": "none"}
 
     def __init__(self, **kw):
         for f in self.FIELDS:
@@ -269,8 +282,28 @@ def build(p: Params):
     h = S.Handler(cfg, p.user, p.owner, p.P, p.ident or b"", p.em, p.p_unsigned, salt=(tuple(p.cfg), p.em, p.user, p.owner, p.P),
                   empty_style=p.empty_style)
     pdf, info = S.write_pdf(doc, h, p.layout, OBJSTM_MEMBERS, p.enc_indirect, p.hexstr, xref_flate=bool(p.variant))
+    pdf = damage_xref(pdf, p.xref_damage)
     model = {num: canon_model(obj) for num, (gen, obj) in doc.objs.items()}
     return pdf, model, h, info, doc
+
+
+XREF_DAMAGE = ["none", "startxref-not-a-number", "startxref-zero", "startxref-past-eof"]
+
+
+def damage_xref(pdf: bytes, how: str) -> bytes:
+    """Make the cross-reference table unreachable, so that the reader has to rebuild it by scanning for 'N G obj'
+    (the body, and with it every ciphertext, is untouched: the content read back must not change)."""
+    if how == "none":
+        return pdf
+    i = pdf.rindex(b"startxref\n")
+    j = pdf.index(b"\n", i + 10)
+    if how == "startxref-not-a-number":
+        return pdf[: i + 10] + b"x" * (j - i - 10) + pdf[j:]
+    if how == "startxref-zero":
+        return pdf[: i + 10] + b"0" + pdf[j:]
+    if how == "startxref-past-eof":
+        return pdf[: i + 10] + b"%d" % (len(pdf) + 100) + pdf[j:]
+    raise ValueError(how)
 
 
 def expected_text(p: Params) -> str:
@@ -448,7 +481,9 @@ def judge(p: Params, pdf: bytes, model, h, info, pw: str, full: bool) -> Tuple[L
 
 
 # -------------------------------------------------------------- enumeration
-def _program_for(cfg, em, user, owner):
+def _program_for(cfg, em, user, owner, tier="thorough"):
+    damages = XREF_DAMAGE[:2] if tier == "quick" else XREF_DAMAGE
+
     def program(x):
         P = x.pick(P_POOL, "P")
         pu = x.flag("P-unsigned")
@@ -459,8 +494,11 @@ def _program_for(cfg, em, user, owner):
         variant = x.choose(2, "variant")
         # zero-length strings/streams under AES: IV + padding block, nothing at all, IV only (no choice without AES)
         es = x.pick(EMPTY_STYLES if cfg[3] in ("AESV2", "AESV3") else EMPTY_STYLES[:1], "empty-style")
+        # damaged startxref: the table is rebuilt by scanning (only meaningful for the classic layout: object streams
+        # of an encrypted file cannot be scanned before the key is known)
+        dmg = x.pick(damages if layout == "table" else XREF_DAMAGE[:1], "xref-damage")
         return Params(cfg=cfg, em=em, user=user, owner=owner, P=P, p_unsigned=pu, ident=ident, layout=layout,
-                      enc_indirect=encind, hexstr=hexstr, variant=variant, empty_style=es)
+                      enc_indirect=encind, hexstr=hexstr, variant=variant, empty_style=es, xref_damage=dmg)
 
     return program
 
@@ -510,13 +548,15 @@ def run_shard(shard, tier, st):
         st.case(None, nontrivial=True, outcome=("selftest", "ok"))
         st.sample({"selftest": "reference handler validated against samples/encryption/*.pdf and cryptography ARC4"})
         return
+    if shard[0] == "pair":
+        return run_pair_shard(shard, tier, st)
     _, c, user, owner = shard
     cfg, em = c[:5], c[5]
     R = cfg[1]
     if S.prepare_password(user, R) is None or S.prepare_password(owner, R) is None:
         st.not_judged["password not representable at this revision"] += 1
         return
-    ex = ChoiceExplorer(_program_for(cfg, em, user, owner), mode="dev", bound=BOUNDS[tier]["dev"])
+    ex = ChoiceExplorer(_program_for(cfg, em, user, owner, tier), mode="dev", bound=BOUNDS[tier]["dev"])
     first = True
     for p, x in ex.run():
         run_case(p, st, default=(x.deviations() == 0), first=first)
@@ -526,7 +566,166 @@ def run_shard(shard, tier, st):
     st.traces += ex.traces
 
 
+# --------------------------------------------- two documents alive at once
+PAIR_CFGS = {
+    "quick": [(2, 3, 128, "RC4", True), (4, 4, 128, "V2", True), (4, 4, 128, "AESV2", True), (4, 4, 128, "Identity", True),
+              (5, 5, 256, "AESV3", True), (5, 6, 256, "AESV3", True)],
+    "thorough": [(1, 2, 40, "RC4", True), (2, 3, 128, "RC4", True), (4, 4, 128, "V2", True), (4, 4, 128, "AESV2", True), (4, 4, 128, "Identity", True),
+                 (4, 4, 128, "V2", False), (5, 5, 256, "AESV3", True), (5, 6, 256, "AESV3", True)],
+}
+# O = open with the user password, W = attempt with a wrong password, R = read the next third of the objects lazily
+# (a fourth R re-reads everything), T = extract_text() on the bytes (opens and drops a document of its own)
+PAIR_EVENTS = {"quick": ["OA", "OB", "WA", "WB", "RA", "RB"], "thorough": ["OA", "OB", "WA", "WB", "RA", "RB", "TA", "TB"]}
+WRONG_PW = "nope"
+
+
+def pair_params(cfgA, cfgB):
+    a = Params(cfg=cfgA, em=True, user="user", owner="owner", P=-44, p_unsigned=False, ident=ID_POOL[0], layout="table",
+               enc_indirect=False, hexstr=False, variant=0)
+    b = Params(cfg=cfgB, em=cfgB[1] < 4, user="p\u00e4ssw\u00f6rd", owner="second", P=-3904, p_unsigned=True, ident=bytes(range(0x60, 0x70)),
+               layout="xrefstm", enc_indirect=True, hexstr=True, variant=1)
+    return a, b
+
+
+def pair_histories(depth: int, events):
+    """Every event sequence up to ``depth`` that obeys: a document is opened at most once, read only while open,
+    at most one wrong-password attempt and one extract_text per document, and the last event observes something."""
+    out = []
+
+    def rec(h):
+        # kept: the last event observes document X after something happened to the other document
+        if h and h[-1][0] in "RT" and any(e[1] != h[-1][1] for e in h[:-1]):
+            out.append(tuple(h))
+        if len(h) == depth:
+            return
+        for e in events:
+            k, d = e[0], e[1]
+            if k == "O" and ("O" + d) in h:
+                continue
+            if k == "R" and ("O" + d) not in h:
+                continue
+            if k in "WT" and e in h:
+                continue
+            rec(h + [e])
+
+    rec([])
+    # baselines first: each document alone
+    base = [("OA", "RA", "RA", "RA", "RA"), ("OB", "RB", "RB", "RB", "RB"), ("TA",), ("TB",)]
+    return base + [h for h in out if h not in base]
+
+
+_SIDE_CACHE: Dict[Any, Any] = {}
+
+
+class _Side:
+    def __init__(self, p: Params):
+        self.p = p
+        k = tuple(sorted((f, repr(v)) for f, v in p.asdict().items()))
+        if k not in _SIDE_CACHE:
+            if len(_SIDE_CACHE) > 8:
+                _SIDE_CACHE.clear()
+            _SIDE_CACHE[k] = build(p)
+        self.pdf, self.model, self.h, self.info, _ = _SIDE_CACHE[k]
+        self.doc = None
+        self.reads = 0
+        nums = sorted(self.model)
+        k = (len(nums) + 2) // 3
+        self.chunks = [nums[:k], nums[k:2 * k], nums[2 * k:]]
+
+
+def run_history(a: Params, b: Params, hist) -> Tuple[List[Tuple[str, Any, Any, str]], Any, int]:
+    """Execute one history on fresh objects; -> (violations, outcome abstraction, events executed)."""
+    sides = {"A": _Side(a), "B": _Side(b)}
+    viol: List[Tuple[str, Any, Any, str]] = []
+    res = []
+    alone = len({e[1] for e in hist}) == 1
+    for i, e in enumerate(hist):
+        k, sd = e[0], sides[e[1]]
+        where = f"event {i} ({e}) of {'-'.join(hist)}"
+        if k == "O":
+            sd.doc, err = open_doc(sd.pdf, sd.p.user)
+            res.append(err or "opened")
+            if sd.doc is None:
+                viol.append((_pw_exc_sig(sd.p, err, "open-failed") if err != "PDFPasswordIncorrect" else "C10/correct-password-rejected", "opens", err, where))
+                break
+        elif k == "W":
+            d2, err = open_doc(sd.pdf, WRONG_PW)
+            res.append(err or "accepted")
+            if d2 is not None:
+                viol.append(("C10/wrong-password-accepted", "PDFPasswordIncorrect", "opened", where))
+            elif err != "PDFPasswordIncorrect":
+                viol.append((_pw_exc_sig(sd.p, err, "wrong-password"), "PDFPasswordIncorrect", err, where))
+        elif k == "T":
+            try:
+                from pdfminer.high_level import extract_text
+
+                t = extract_text(io.BytesIO(sd.pdf), password=sd.p.user)
+            except Exception as ex:  # noqa
+                t = "EXC " + _exc_sig(ex)
+            ok = t == expected_text(sd.p)
+            res.append("text-ok" if ok else "text-differs")
+            if not ok:
+                viol.append(("C10/text-differs" if alone else "C10/cross-document-interference", expected_text(sd.p), t,
+                             "extract_text differs from the unencrypted original's text; " + where))
+        else:
+            nums = sd.chunks[sd.reads] if sd.reads < 3 else sorted(sd.model)
+            sd.reads += 1
+            bad = None
+            for num in nums:
+                try:
+                    got = canon_impl(sd.doc.getobj(num))
+                except Exception as ex:  # noqa
+                    got = ("EXC", _exc_sig(ex))
+                d0 = next(diff(sd.model[num], got), None)
+                if d0 is not None and bad is None:
+                    bad = (num, d0)
+            if sd.reads == 3 and bad is None:
+                di = canon_impl(sd.doc.info)
+                d0 = next(diff([sd.model[6]], di), None)
+                if d0 is not None:
+                    bad = ("info", d0)
+            res.append("read-ok" if bad is None else "read-differs")
+            if bad is not None:
+                num, (path, e_, o_) = bad
+                sig = "C10/wrong-string" if alone else "C10/cross-document-interference"
+                viol.append((sig, e_, o_, f"object {num} of document {e[1]} at {'/'.join(map(str, path))} differs from what the document yields when it is the "
+                                           f"only one open; {where}"))
+    return viol, tuple(res), len(res)
+
+
+def run_pair_shard(shard, tier, st):
+    _, cfgA, cfgB = shard
+    a, b = pair_params(cfgA[:5], cfgB[:5])
+    if tier == "quick":
+        hists = pair_histories(4, PAIR_EVENTS["quick"])
+    else:  # depth 5 without extract_text events, depth 4 with them
+        hists = pair_histories(5, PAIR_EVENTS["quick"])
+        hists += [h for h in pair_histories(4, PAIR_EVENTS["thorough"]) if h not in set(hists)]
+    prefixes = set()
+    first = True
+    for hist in hists:
+        viol, outcome, n = run_history(a, b, hist)
+        for i in range(1, len(hist) + 1):
+            prefixes.add(hist[:i])
+        st.transitions += n
+        st.traces += 1
+        st.case(None, nontrivial=any(r.startswith(("read", "text")) for r in outcome), outcome=(cfgA[:4], cfgB[:4], hist, outcome))
+        for sig, e_, o_, what in viol:
+            sa, sb = _Side(a), _Side(b)
+            st.violation(sig, {"pair": [a.asdict(), b.asdict()], "history": list(hist), "pdfA": sa.pdf, "pdfB": sb.pdf}, e_, o_, what)
+        if first:
+            st.sample({"pair": [S.Cfg(*cfgA[:5]).name, S.Cfg(*cfgB[:5]).name], "histories": len(hists), "example": list(hists[min(40, len(hists) - 1)])})
+            first = False
+    st.states += 1 + len(prefixes)
+    st.add("pair_histories", len(hists))
+
+
 def replay(case):
+    if "pair" in case:
+        pa, pb = (dict(x) for x in case["pair"])
+        pa["cfg"], pb["cfg"] = tuple(pa["cfg"]), tuple(pb["cfg"])
+        viol, _, _ = run_history(Params(**pa), Params(**pb), tuple(case["history"]))
+        return [{"signature": sig, "expected": repr(e_)[:500], "observed": repr(o_)[:500]} for sig, e_, o_, what in viol]
     pr = dict(case["params"])
     pr["cfg"] = tuple(pr["cfg"])
     p = Params(**pr)
